@@ -238,6 +238,7 @@ func (p *phaser) Phase(orfs, seqs SeqBag) (phased chan PhasedSequence, err error
 				}
 				verifhook.At("ph.w.result", seq.Length(), 0)
 				phased <- ph
+				verifhook.At("ph.w.sent", seq.Length(), 0)
 			}
 		}()
 	}
